@@ -163,7 +163,7 @@ impl Prop for C12 {
         }
     }
     fn worker(&self, ctx: &mut WorkerCtx) {
-        let total = if ctx.quick { 40_000 } else { 1_500_000 };
+        let total = if ctx.quick { 40_000 } else { 1_000_000 };
         let n = ctx.share(total);
         ctx.drive(1, n, 600, &gen_case, &check, &reduce);
     }
